@@ -33,7 +33,7 @@ type vfTmOp struct {
 	debounce bool    // issued as cancel + make of the same id by one machine within one processed message
 }
 
-var vfDelays = []time.Duration{time.Millisecond, 5 * time.Millisecond, 20 * time.Millisecond, time.Second, time.Hour}
+var vfDelays = []time.Duration{time.Millisecond, 5 * time.Millisecond, 20 * time.Millisecond, time.Second, time.Hour, 0, -time.Millisecond} // (also due at once, and overdue)
 var vfSleeps = []time.Duration{time.Millisecond, 4 * time.Millisecond, 20 * time.Millisecond, 500 * time.Millisecond, time.Second}
 
 func vfMakeMsg(op *vfTmOp) map[string]interface{} {
